@@ -43,8 +43,9 @@ def write_tree(d, modname, source, helpers):
     if "." in modname:
         pkgdir = os.path.dirname(mf)
         open(os.path.join(pkgdir, "__init__.py"), "w").write("")
-        # re-export shims inside the package: the classes still belong to the top-level helper modules
-        open(os.path.join(pkgdir, "shapes.py"), "w").write("from shapes import Circle, Square, unit  # noqa: F401\n")
+        # sibling modules of the package: `shapes` defines its own classes (the stub then names `<pkg>.shapes.Circle`, which is what the
+        # source's `from .shapes import Circle` resolves to); `points` re-exports a class that belongs to a top-level helper module
+        open(os.path.join(pkgdir, "shapes.py"), "w").write(helpers["shapes.py"])
         open(os.path.join(pkgdir, "points.py"), "w").write("from geo.util import Point  # noqa: F401\n")
     with open(mf, "w") as f:
         f.write(source)
